@@ -35,21 +35,22 @@ type lifeConn struct {
 }
 
 type lifeRun struct {
-	svc      *varlink.Service
-	fake     *FakeListener
-	done     chan error
-	cancel   context.CancelFunc
-	serving  bool // the serving call is running and has not been told to stop
-	draining bool // shutdown issued, serving call must return once open is empty
-	wantNil  bool // the return value must be nil
-	open     []*lifeConn
-	nextID   int
-	bound    time.Duration
-	timeout  time.Duration
-	facts    map[string]int
-	log      *InvLog
-	cycles   int
-	stuck    error // a harness call into the service did not return
+	svc         *varlink.Service
+	fake        *FakeListener
+	done        chan error
+	cancel      context.CancelFunc
+	serving     bool // the serving call is running and has not been told to stop
+	draining    bool // shutdown issued, serving call must return once open is empty
+	wantNil     bool // the return value must be nil
+	open        []*lifeConn
+	nextID      int
+	bound       time.Duration
+	timeout     time.Duration
+	ctxDeadline bool
+	facts       map[string]int
+	log         *InvLog
+	cycles      int
+	stuck       error // a harness call into the service did not return
 }
 
 var rebindCounter int64
@@ -101,10 +102,22 @@ func (r *lifeRun) setListener(l net.Listener) {
 	r.api("installing the listener", func() { r.svc.VerifSetListener(l) })
 }
 
+// serveCtx: the context of a serving call; in half of the histories it carries a deadline that lies twenty minutes
+// ahead (it never passes during a case): a deadline of the context is not an idle period.
+func (r *lifeRun) serveCtx() (context.Context, context.CancelFunc) {
+	if !r.ctxDeadline {
+		return context.WithCancel(context.Background())
+	}
+	parent, pcancel := context.WithTimeout(context.Background(), 20*time.Minute)
+	ctx, cancel := context.WithCancel(parent)
+	r.facts["serving-context-has-deadline"]++
+	return ctx, func() { cancel(); pcancel() }
+}
+
 func (r *lifeRun) start() error {
 	r.fake = NewFakeListener()
 	r.setListener(r.fake)
-	ctx, cancel := context.WithCancel(context.Background())
+	ctx, cancel := r.serveCtx()
 	r.cancel = cancel
 	r.done = make(chan error, 1)
 	go func(d chan error) { d <- r.svc.DoListen(ctx, r.timeout) }(r.done)
@@ -451,7 +464,7 @@ func (r *lifeRun) step1(op LOp) error {
 		r.fake = NewFakeListener()
 		r.setListener(r.fake)
 		r.shutdown()
-		ctx, cancel := context.WithCancel(context.Background())
+		ctx, cancel := r.serveCtx()
 		r.cancel = cancel
 		r.done = make(chan error, 1)
 		go func(d chan error) { d <- r.svc.DoListen(ctx, r.timeout) }(r.done)
@@ -579,6 +592,11 @@ func checkDeadlines(l *FakeListener, timeout time.Duration) string {
 				return "a deadline was set on the listener although the service was started without a timeout"
 			}
 			d := l.Deadlines[di]
+			if di < len(l.DeadlineAt) && timeout >= time.Minute && d.Before(l.DeadlineAt[di].Add(timeout-30*time.Second)) {
+				// (the idle period is an hour in these histories; whatever else limits the serving call - a deadline of its
+				// context, say - is not an idle period and must not shorten it)
+				return fmt.Sprintf("the accept deadline was armed only %v ahead although the idle timeout is %v: the service would report an idle timeout before the listener has been idle for that period", d.Sub(l.DeadlineAt[di]).Round(time.Second), timeout)
+			}
 			di++
 			if d.Before(prev) {
 				return fmt.Sprintf("accept deadline moved backwards: %v after %v", d, prev)
@@ -638,6 +656,7 @@ func execLife(c LifeCase, bound time.Duration, at *atomic.Value) (facts map[stri
 	if c.Timeout {
 		r.timeout = time.Hour
 	}
+	r.ctxDeadline = len(c.Ops)%2 == 1
 	var fakes []*FakeListener
 	if err := r.start(); err != nil {
 		return r.facts, err
